@@ -245,6 +245,7 @@ let model_run (line : string) : string =
           String.concat ";" (List.sort compare (List.map (fun l -> enc (ts l)) (lines acts))) ^ "!" ^ status p
         end else canon_terse (run cfg0 ListTerse)
       | 'D' -> dump_of benches groups
+      | 'K' -> ""   (* marker: the case has a module / generic function name clash *)
       | 'R' | 'Q' -> canon_tree (run cfg0 Test) true made
       | 'L' | 'A' -> canon_tree (run cfg0 List) false made
       | 'E' ->
@@ -353,10 +354,45 @@ let c14_sb (line : string) : string =
    | _ -> ());
   if !fail = [] then "true" else "false " ^ String.concat " " (List.rev !fail)
 
+(* ---- C12: what ran against the flat semantics (every entry at its module path, with the names and
+   options of the bench_group modules above it) ---- *)
+let c12_sb (line : string) : string =
+  let (case, impl) = split_sb line in
+  let (c, benches, groups) = parse_case case in
+  let secs = sections_of impl in
+  let cfg0 = mk_cfg c c.pos c.exact in
+  let fail = ref [] in
+  let bad s = fail := s :: !fail in
+  let expected = List.map (fun ((id, path), arg) ->
+      enc (ts path) ^ "=C" ^ string_of_n id ^ (match arg with None -> "" | Some (_, v) -> "=" ^ render_val v))
+      (flat_exec cfg0 benches groups) in
+  List.iter (fun (act, body) ->
+    match act with
+    | 'R' | 'Q' ->
+      let (items, _, rest) = read_tree body in
+      if rest <> [] then bad ("run-status:" ^ String.concat "," rest);
+      if has_mismatch items then bad "run-leaves-and-calls-differ";
+      let got = List.filter_map (fun it ->
+          if String.length it > 2 && it.[0] = 'X' then Some (String.sub it 2 (String.length it - 2)) else None) items in
+      if not (c12_flat_sb (List.map st expected) (List.map st got)) then begin
+        let missing = List.filter (fun x -> not (List.mem x got)) expected
+        and extra = List.filter (fun x -> not (List.mem x expected)) got in
+        bad ("registered-benchmarks-differ-from-the-program missing=" ^ String.concat "+" missing ^ " unexpected=" ^ String.concat "+" extra)
+      end
+    | 'T' ->
+      let (ls, log, rest) = read_terse body in
+      if rest <> [] then bad ("terse-status:" ^ String.concat "," rest);
+      let exp_lines = List.sort compare (List.map (fun ((_, path), _) -> ts path ^ ": benchmark") (flat_exec cfg0 benches groups)) in
+      if List.sort compare ls <> exp_lines then bad "terse-listing-differs-from-the-program"
+    | 'D' | 'L' | 'A' | 'K' | 'E' -> ()
+    | _ -> bad "unreadable-output") secs;
+  if !fail = [] then "true" else "false " ^ String.concat " " (List.rev !fail)
+
 let dispatch mode line =
   match mode with
   | "c14" | "c12" | "c17" | "run" -> model_run line
   | "c14.sb" -> c14_sb line
+  | "c12.sb" -> c12_sb line
   | _ -> failwith ("unknown mode " ^ mode)
 
 let () = main dispatch
